@@ -18,7 +18,7 @@ def vc(sub, step, quick, thorough, shards_thorough=16, extra=None):
 CHECKS = {
     "C03": {
         "packages": ["vchecks"],
-        "steps": [vc("c03a", "api", 30000, 1600000)],
+        "steps": [vc("c03a", "api", 30000, 1600000), vc("c03-maps", "maps", 20000, 800000)],
         "assumptions": L1_ASSUME,
     },
     "C04": {
@@ -40,6 +40,16 @@ CHECKS = {
         "packages": ["vchecks"],
         "steps": [vc("c19", "usage", 40000, 1600000)],
         "assumptions": L1_ASSUME + ["the expected answer is known by construction (the generator labels every planted occurrence); binder lifetimes are drawn from a pool that is never queried"],
+    },
+    "C11": {
+        "packages": ["vchecks"],
+        "steps": [vc("c11", "ints", 40000, 1600000)],
+        "assumptions": L1_ASSUME + ["std's FromStr for the integer/float types is the reference; the harness's own arbitrary-precision radix conversion gives the decimal digits of unquoted literals"],
+    },
+    "C14": {
+        "packages": ["vchecks"],
+        "steps": [vc("c14", "maps", 30000, 1600000)],
+        "assumptions": L1_ASSUME + ["the element types' own from_meta is the reference for entry values (differential)"],
     },
     "C05": {
         "packages": ["vchecks"],
